@@ -1376,6 +1376,30 @@ for _cls in ("tensor", "sptensor"):
     _mkDown(_cls)
 
 
+@row("sptensor.__setitem__:sparse-rhs-with-more-or-fewer-modes-than-the-key-has-ranges", (2, 3))
+def _(e):
+    # one slice (the other modes fixed by integers) but a two-way right-hand side; or two slices and a one-way right-hand side; the
+    # target may lie past the extent (the write would grow the tensor)
+    X = e.holder("sptensor")
+    c = int(e.rng.integers(0, 3))
+    grow = int(e.rng.integers(0, 2))
+    if c < 2:
+        key = tuple([slice(0, 2)] + [int(s_ - 1 + 3 * grow) for s_ in e.shape[1:]])
+        R = ttb.sptensor(np.array([[0, 0], [1, 1]]), np.array([[1.0], [2.0]]), (2, 2 + c))
+    else:
+        key = tuple([slice(0, 2), slice(0, 2)] + [int(s_ - 1 + 3 * grow) for s_ in e.shape[2:]])
+        R = ttb.sptensor(np.array([[0], [1]]), np.array([[1.0], [2.0]]), (2,))
+    return "sptensor.__setitem__", X.__setitem__, (key, R), {}, X, {"grows": bool(grow)}
+
+
+@row("tensor.__setitem__:subscripts-past-the-extent-with-a-wrong-number-of-values-as-a-matrix", (2, 3))
+def _(e):
+    X = e.holder("tensor")
+    subs = np.array([[s_ + 1 for s_ in e.shape], [0] * e.N, [1] * e.N])
+    vals = [np.ones((2, 2)), np.ones((2, 1)), np.ones((1, 4))][int(e.rng.integers(0, 3))]
+    return "tensor.__setitem__", X.__setitem__, (subs, vals), {}, X, {}
+
+
 @row("sptensor.__setitem__:sparse-rhs-does-not-fit-the-slice", (2, 3))
 def _(e):
     # a slice that names fewer (or more) positions than the sparse right-hand side has in that mode
